@@ -1,6 +1,6 @@
 (* Properties/C11.v — Rust keywords and naming conventions never reach the wire or break the build.
    The keyword table is the one TRANSLATED from codegen/shared.rs on this run. *)
-From GC Require Import Base Heck Naming NamingProofs.
+From GC Require Import Base Rust Heck Naming NamingProofs Schema Query Codegen StrategyAll InvariantAll.
 From GC.Gen Require Import Keywords.
 
 (* finite facts about the translated table, by computation (bound = table length) *)
@@ -68,3 +68,12 @@ Print Assumptions C11_wire_key_fields.
 Print Assumptions C11_wire_key_oneof.
 Print Assumptions C11_oneof_prefix_refuted.
 Print Assumptions C11_enum_variant_never_keyword.
+
+(* ---------- for ALL programs (InvariantAll.v): no struct member anywhere in the expansion of any
+   selection — plain fields, aliases, nested objects, fragment-spread members in structs AND in the structs of
+   union / interface variants — is named by a keyword of the table.  (Lifting the per-field fact to whole
+   programs is what exposed the call site that did not escape: repaired, fix 7db317c.) *)
+Theorem C11_no_keyword_member_anywhere : forall s frs o fuel c sels sid t p c',
+  fields_all not_keyword c -> calc s frs o fuel c sels sid t p = Some c' -> fields_all not_keyword c'.
+Proof. exact (no_keyword_member_anywhere C11_table_complete C11_table_escape_closed). Qed.
+Print Assumptions C11_no_keyword_member_anywhere.
